@@ -90,9 +90,9 @@ def run(tier, seed, replay=None):
     ctx.assumptions += ["X25519 / HMAC / HKDF idealised in the spec; the probe compares real key bytes",
                         "encrypted extended answers cannot be rewritten by a network attacker (only the plaintext created leg)",
                         "a malicious relay ON the path is represented by manipulations of the created it forwards"]
-    K.spec_controls(ctx, [("Onion_c08_noident.cfg", "AnswerMustMatch",
-                           "spec without the identifier comparison accepts a stale answer (AnswerMustMatch violated)")])
-    K.model_check(ctx, ["Onion_c08.cfg"])
+    bg = K.Background(["Onion_c08_a.cfg", "Onion_c08_b.cfg", "Onion_c08_t.cfg", "Onion_c08_a3.cfg"],
+                      [("Onion_c08_noident.cfg", "AnswerMustMatch",
+                        "spec without the identifier comparison accepts a stale answer (AnswerMustMatch violated)")])
     base = seed * 1000
     n = 4 if tier == "quick" else 16
     ok, traces, hdr = K.random_family(ctx, PID, "line4", "handshake", range(base, base + n), 220 if tier == "quick" else 500,
@@ -111,6 +111,7 @@ def run(tier, seed, replay=None):
         scr.append(tr)
     K.validate_family(ctx, PID, scr, "line4", hdr2, "mangle-every-position", NONTRIVIAL)
     ctx.note("scripted", {"runs": len(scr), "manipulations": sum(1 for t in scr for e in t["events"] if e["a"] == "MangleAnswer")})
+    bg.collect(ctx)
     return ctx.finish()
 
 
